@@ -359,6 +359,23 @@ func ruleFragments(c *Ctx, rule string, shorts ...string) {
 			continue
 		}
 		c.ok(rule, key+"/isPrefix", isPrefix.Pos(), "isPrefix decides a branch")
+		// every way back to the ReadLine call goes through the isPrefix test: a chunk
+		// that is skipped before the test loses the information that the line ended
+		{
+			bypass := false
+			if ifi.Block() != call.Block() {
+				for _, s := range call.Block().Succs {
+					if reaches(s, call.Block(), ifi.Block()) {
+						bypass = true
+					}
+				}
+			}
+			if bypass {
+				c.bad(rule, key+"/everychunk", call.Pos(), "some path returns to ReadLine for the next chunk without testing isPrefix: when a physical line is an exact multiple of bufio's buffer its empty terminating chunk is skipped, the end of the line goes unnoticed, and the next physical line (e.g. the next record's header) is glued onto it")
+			} else {
+				c.ok(rule, key+"/everychunk", call.Pos(), "every path back to ReadLine passes the isPrefix test")
+			}
+		}
 		// (b) the isPrefix edge returns to the ReadLine call without any call in between
 		edge := 0
 		if neg {
